@@ -30,6 +30,11 @@ def run(ctx):
                 "Vec3 slerp; square roots are validated by what they satisfy (m^2 = |v|^2, m >= 0, m * unit = v)")
     thorough = ctx.tier == "thorough"
     core.law_runs(ctx, "Law_Spatial", ["Law_Spatial"])
+    # symbolic lane: dot, squared magnitude / distance, reflection about an arbitrary vector (Vec2/3/4/8/16, Extent2/3), cross,
+    # determine_side on free symbols, compared as polynomials - every input at once
+    core.drive_validate(ctx, "sym", "Trace_Spatial", "Trace_Spatial_S", "spatial-sym", 1,
+                        ["v_dot", "v_mag2", "v_dist2", "v_reflect", "v_cross", "v_side"], key=key, extra_args=["--area", "spatial"],
+                        corrupt_op="v_reflect")
     core.drive_validate(ctx, "spatial", "Trace_Spatial", "Trace_Spatial", "spatial", 60 if thorough else 5, OPS, key=key,
                         corrupt=corrupt)
     ctx.assumptions = ["vectors whose length is irrational are not examined for sqrt-based outputs (the exact lane drops them "
